@@ -380,6 +380,10 @@ def _gen_lifecycle_program(rng, tier):
     marker = rng.choice([None, None, "!", "*", "*LK*", "!!", "*NP*"]) if disabled == "unix_disabled" else None
     if marker:
         cfg["unix_disabled__marker"] = marker
+    if rng.random() < 0.3:
+        # a scheme that claims marker-prefixed text too, listed LAST (listed before another scheme it would own that scheme's
+        # records by the attribution rule, before the disabled-account scheme every disabled record: outside the domain)
+        cfg["schemes"].append(rng.choice(["plaintext", "plaintext", "ldap_plaintext"]))
     real = [s for s in cfg["schemes"] if s != disabled]
     users = []
     for i in range(rng.randint(1, 5)):
@@ -462,9 +466,22 @@ class _PolicyRun:
             raise RuntimeError(f"generated configuration refused: {r[1]}: {r[2]} -- {self.policy}")
         self.cc = r[1]
         self.model = PolicyModel(self.policy, self.facts)
+        self._count_beyond(self.policy)
         self.table = {}  # user -> (hash, pw)
         self.seen = set()
         self.kinds = {}
+
+    def _count_beyond(self, policy):
+        """reach counter: a configured cost limit lies beyond the format's hard limit (accepted and clamped, with a warning)"""
+        for k, v in policy.items():
+            parts = k.split("__")
+            if parts[-1] in ("min_rounds", "max_rounds", "default_rounds") and parts[-2] in COSTED:
+                lo, hi, _ = COSTED[parts[-2]]
+                try:
+                    if int(v) < lo or int(v) > hi:
+                        self.ctx.fault("cost_beyond_hard_limit")
+                except (TypeError, ValueError):
+                    pass
 
     def run(self, ops):
         ctx = self.ctx
